@@ -64,6 +64,9 @@ type c06Scenario struct {
 	CacheSnap bool     `json:"cache_snap,omitempty"`
 	CacheL    int      `json:"cache_l,omitempty"`
 	CacheR    int      `json:"cache_r,omitempty"`
+	Crc       bool     `json:"crc,omitempty"`      // Channel.VerifyCrc (disk readers verify sealed segments / snapshot files when opening them)
+	Corrupt   string   `json:"corrupt,omitempty"`  // "" | log | snap: one byte of the cached log segment / snapshot file was altered on disk before the start
+	Prep      bool     `json:"prep,omitempty"`     // the source prepares a snapshot for 4 s (LF heartbeats) before +FULLRESYNC and before $<len>
 	Events    []string `json:"events,omitempty"`
 }
 
@@ -143,15 +146,17 @@ func c06RedisCfg(addr string) config.RedisConfig {
 // c06GlobalConfig fills the process-wide configuration the code under test reads
 // (what the YAML loader would have produced): transactional checkpoints, resume from
 // break point, no RESTORE (snapshot keys are replayed as plain SETs).
-func c06GlobalConfig() error {
+func c06GlobalConfig(crc bool) error {
 	gc := config.GetSyncerConfig()
 	rc := c06RedisCfg(c06SrcAddr)
-	gc.Input = &config.InputConfig{Redis: &rc}
+	// one snapshot slot (a deployment with one input): a slot that is not given back by any
+	// path of fetchInput/syncData blocks the next (re)connection, which the horizon check
+	// reports; with the default of 100 a leak could never show within one history
+	gc.Input = &config.InputConfig{Redis: &rc, RdbParallel: 1}
 	if err := config.VerifFixInput(gc.Input); err != nil {
 		return err
 	}
-	// VerifyCrc stays at its default; with true Storer.GetReader self-deadlocks (reported separately)
-	gc.Channel = &config.ChannelConfig{VerifyCrc: false}
+	gc.Channel = &config.ChannelConfig{VerifyCrc: crc}
 	gc.Server.ListenPort = 18001
 	yes, no := true, false
 	tc := c06RedisCfg(c06TgtAddr)
@@ -200,7 +205,7 @@ func (e *c06Env) histOf(name string) *sourced.History {
 // prepare builds the initial triple.
 func (e *c06Env) prepare() error {
 	scn := e.scn
-	if err := c06GlobalConfig(); err != nil {
+	if err := c06GlobalConfig(scn.Crc); err != nil {
 		return err
 	}
 
@@ -235,6 +240,9 @@ func (e *c06Env) prepare() error {
 	// off the 1 ms / 10 ms grid of reply timers and reader polls, so the payload never
 	// arrives at the same virtual instant as a poll.
 	e.src.DataDelay = 200*time.Millisecond + 500*time.Microsecond
+	if scn.Prep {
+		e.src.PrepDelay = 2500 * time.Millisecond
+	}
 	if scn.Src == "fo" {
 		e.src.SetLineage(h1.ReplID, cur.Off(scn.ForkAt)+1)
 	}
@@ -302,11 +310,59 @@ func (e *c06Env) prepare() error {
 			if err != nil {
 				return fmt.Errorf("building the cache: %w", err)
 			}
+			if scn.Corrupt != "" {
+				if err := c06CorruptCache(filepath.Join(e.dir, h.ReplID), scn.Corrupt); err != nil {
+					return fmt.Errorf("altering the cache: %w", err)
+				}
+			}
 		} else {
 			e.prefill = func(ch Channel) error { return c06FillCache(ch, h, scn.CacheSnap, scn.CacheL, scn.CacheR) }
 		}
 	}
 	return nil
+}
+
+// c06CorruptCache alters one byte of a cached file the way a failing disk would: in the
+// last command of the (single, sealed) log segment the history tag digit of the key
+// becomes '7' ("h1:006" -> "h7:006": still a well-formed command, but of no history),
+// or in the snapshot file the same digit of the first key. File sizes do not change.
+func c06CorruptCache(dir string, what string) error {
+	ents, err := os.ReadDir(dir)
+	if err != nil {
+		return err
+	}
+	suffix := ".aof"
+	if what == "snap" {
+		suffix = ".rdb"
+	}
+	for _, en := range ents {
+		if !strings.HasSuffix(en.Name(), suffix) {
+			continue
+		}
+		fn := filepath.Join(dir, en.Name())
+		b, err := os.ReadFile(fn)
+		if err != nil {
+			return err
+		}
+		at := -1
+		if what == "snap" {
+			at = bytes.Index(b, []byte("pre:h"))
+			if at >= 0 {
+				at += 5
+			}
+		} else {
+			at = bytes.LastIndex(b, []byte("\r\nh"))
+			if at >= 0 {
+				at += 3
+			}
+		}
+		if at < 0 || at >= len(b) {
+			return fmt.Errorf("no key found in %s", fn)
+		}
+		b[at] = '7'
+		return os.WriteFile(fn, b, 0666)
+	}
+	return fmt.Errorf("no %s file in %s", suffix, dir)
 }
 
 func c06FillCache(ch Channel, h *sourced.History, snap bool, l, r int) error {
@@ -484,6 +540,17 @@ func (e *c06Env) apply(ev string) error {
 		h.Append(cur.NumCmds())
 		e.hist[tag] = h
 		e.src.Replace(h)
+	case "down2", "down6":
+		// the source's address refuses connections for 2 s (inside the tool's 3 x 1 s
+		// connection retries) or 6 s (beyond them: the run loop ends, the process restarts)
+		e.src.SetDown(true)
+		d := 2 * time.Second
+		if ev == "down6" {
+			d = 6 * time.Second
+		}
+		time.Sleep(d)
+		synctest.Wait()
+		e.src.SetDown(false)
 	case "rs":
 		e.restart("event")
 	default:
@@ -1009,6 +1076,9 @@ func (rec *c06Record) judge() mc.Result {
 		if len(e.exits) > 0 {
 			kind = "run-loop-ended"
 		}
+		if rec.scn.Corrupt != "" {
+			kind = "altered-cache"
+		}
 		return viol("the target was not brought up to the source's current position within the horizon", "not-caught-up:"+kind, fin)
 	}
 	var missing []string
@@ -1023,6 +1093,12 @@ func (rec *c06Record) judge() mc.Result {
 	if len(missing) > 0 {
 		fin["missing_keys"] = missing
 		return viol("writes of the source's current history are missing on the target", "target-missing-writes", fin)
+	}
+	if rec.auditEr != "" && rec.scn.Corrupt != "" && strings.HasPrefix(rec.auditEr, "read:") && strings.Contains(rec.auditEr, "corrupted") {
+		// the altered file is still in the cache but was never needed (the target was
+		// already past it); the verifying reader refuses it, which is all C06 asks
+		rec.final["cache_audit"] = "altered file still cached, refused by the verifying reader"
+		rec.auditEr = ""
 	}
 	if rec.auditEr != "" {
 		kind := rec.auditEr[:strings.IndexByte(rec.auditEr, ':')]
@@ -1195,13 +1271,27 @@ func c06Sequences(alpha []string, depth int) [][]string {
 	return out
 }
 
+type c06Family struct {
+	tr   c06Scenario
+	seqs [][]string
+}
+
+func c06WithEvent(alpha []string, ev string) [][]string {
+	var out [][]string
+	for _, a := range alpha {
+		out = append(out, []string{ev, a}, []string{a, ev})
+	}
+	return out
+}
+
 func c06Histories(tier string) []c06Scenario {
 	triples := c06Triples(tier)
 	base := []string{"app", "drop", "fo", "foe", "trim", "rs"}
 	wide := []string{"app", "drop", "rst", "fo", "foe", "trim", "rs", "new"}
+	thorough := tier == "thorough"
 	// event sequences, by length, for ordinary triples and for seed triples
 	var plain, seed [][]string
-	if tier == "thorough" {
+	if thorough {
 		plain = c06Sequences(wide, 1)
 		seed = c06Sequences(wide, 2)
 		for _, sq := range c06Sequences(base, 3) {
@@ -1213,25 +1303,105 @@ func c06Histories(tier string) []c06Scenario {
 		plain = c06Sequences(base, 1)
 		seed = c06Sequences(base, 2)
 	}
+	var fams []c06Family
+	for _, tr := range triples {
+		if c06Seed(tr) {
+			fams = append(fams, c06Family{tr, seed})
+		} else {
+			fams = append(fams, c06Family{tr, plain})
+		}
+	}
+	// source unreachable for 2 s / 6 s (connection retries, run-loop exit, process restart)
+	down1 := [][]string{{"down2"}, {"down6"}}
+	down2 := c06WithEvent([]string{"app", "fo", "foe"}, "down6")
+	if thorough {
+		down2 = c06WithEvent(base, "down6")
+		down2 = append(down2, c06WithEvent(base, "down2")...)
+		down2 = append(down2, []string{"down6", "down6"}, []string{"down2", "down6"})
+	}
+	for _, tr := range triples {
+		if tr.Trim != 0 || tr.LogSize != 1<<20 || (tr.Base != "" && !thorough) {
+			continue
+		}
+		fams = append(fams, c06Family{tr, down1})
+		if c06Seed(tr) {
+			fams = append(fams, c06Family{tr, down2})
+		}
+	}
+	// checksum verification of cached files (disk), two segment sizes
+	for _, tr := range triples {
+		if tr.Chan != "disk" || tr.Base != "" || tr.LogSize != 1<<20 {
+			continue
+		}
+		isSeed := c06Seed(tr)
+		if isSeed || (thorough && tr.Trim == 0) {
+			for _, ls := range []int64{1 << 20, 100} {
+				v := tr
+				v.Crc, v.LogSize = true, ls
+				switch {
+				case isSeed && thorough && ls == 1<<20:
+					fams = append(fams, c06Family{v, c06Sequences(wide, 2)})
+				case isSeed:
+					fams = append(fams, c06Family{v, plain})
+				default:
+					fams = append(fams, c06Family{v, [][]string{nil}})
+				}
+			}
+		}
+		// ... and a cached file altered on disk since it was written
+		if tr.Trim == 0 && tr.CacheID != "" {
+			seqs := [][]string{nil}
+			if isSeed {
+				seqs = plain
+			}
+			if tr.CacheR > tr.CacheL {
+				v := tr
+				v.Crc, v.Corrupt = true, "log"
+				fams = append(fams, c06Family{v, seqs})
+			}
+			if tr.CacheSnap {
+				v := tr
+				v.Crc, v.Corrupt = true, "snap"
+				fams = append(fams, c06Family{v, seqs})
+			}
+		}
+	}
+	// a master that takes seconds to produce the snapshot (heartbeats, late $<len>)
+	for _, tr := range triples {
+		if tr.LogSize != 1<<20 || tr.Trim != 0 {
+			continue
+		}
+		switch {
+		case c06Seed(tr) && !thorough:
+			fams = append(fams, c06Family{c06Prep(tr), [][]string{nil, {"drop"}, {"foe"}, {"rs"}}})
+		case c06Seed(tr):
+			fams = append(fams, c06Family{c06Prep(tr), plain})
+		case tr.Base != "" && tr.CpID == "" && tr.CacheID == "":
+			fams = append(fams, c06Family{c06Prep(tr), [][]string{nil}})
+		case thorough && tr.CacheID == "":
+			fams = append(fams, c06Family{c06Prep(tr), plain})
+		}
+	}
 	var out []c06Scenario
 	// breadth-first: all histories of length d before any of length d+1
 	for d := 0; d <= 3; d++ {
-		for _, tr := range triples {
-			seqs := plain
-			if c06Seed(tr) {
-				seqs = seed
-			}
-			for _, sq := range seqs {
+		for _, f := range fams {
+			for _, sq := range f.seqs {
 				if len(sq) != d {
 					continue
 				}
-				s := tr
+				s := f.tr
 				s.Events = sq
 				out = append(out, s)
 			}
 		}
 	}
 	return out
+}
+
+func c06Prep(tr c06Scenario) c06Scenario {
+	tr.Prep = true
+	return tr
 }
 
 func runC06(t *testing.T, rep *mc.Reporter) {
